@@ -4,10 +4,12 @@ import (
 	"context"
 	"encoding/binary"
 	"fmt"
+	"io"
 	"strings"
 
 	protocol "github.com/hujm2023/go-sms-protocol"
 	"github.com/hujm2023/go-sms-protocol/cmpp"
+	"github.com/hujm2023/go-sms-protocol/codec"
 	"github.com/hujm2023/go-sms-protocol/datacoding"
 	"github.com/hujm2023/go-sms-protocol/datacoding/gsm7encoding"
 	"github.com/hujm2023/go-sms-protocol/packet"
@@ -19,6 +21,7 @@ import (
 	"golang.org/x/text/transform"
 
 	"verif/sim/core"
+	"verif/sim/simnet"
 	"verif/sim/spec"
 )
 
@@ -466,7 +469,7 @@ func (h *hostile) smppBody(body string, coding int) {
 func (h *hostile) auxParsers() {
 	c := h.r.C
 	var s []byte
-	switch c.Pick(3, 2, 2, 2, 2, 3) {
+	switch c.Pick(3, 2, 2, 2, 2, 3, 2) {
 	case 5:
 		// packed GSM 7-bit: septet sequences over the branch-driving alphabet, packed by the reference packer
 		alpha := []byte{0x00, 0x01, 0x0d, 0x1b, 0x3f, 0x40, 0x7f, 0x65, 0x0a, 0x41}
@@ -495,9 +498,35 @@ func (h *hostile) auxParsers() {
 			b = a + c.Intn(min(16, len(full)-a+1)) // ends shortly after it starts
 		}
 		s = []byte(full[a:b])
-		if c.Bool() {
+		switch c.Pick(2, 2, 3) {
+		case 1:
 			keys := []string{"Sub", "sub:", "id:", "Err", "Text", "Stat", "Dlvrd", "Done_Date", "Submit_Date", "id:123", "Sub:", "text:"}
 			s = []byte(keys[c.Intn(len(keys))])
+		case 2:
+			// assembled receipts: key tokens in any spelling between junk of arbitrary octets, invalid UTF-8 and runes
+			// whose case mappings change their encoded length; most end shortly after a key
+			keys := []string{"id:", "sub:", "dlvrd:", "submit date:", "done date:", "stat:", "err:", "text:", "Sub:", "Dlvrd:", "Submit_Date:", "Done_Date:", "Stat:", "Err:", "Text:", "ID:", "STAT:", "Id:"}
+			odd := []string{"\xff", "\xfe\xfd", "\xd6\xd0\xce\xc4", "\u023a", "\u212a", "\u0130", "\u1e9e", "\u00df", "\xc0\xaf", "\xed\xa0\x80", "\xf0\x9f", " ", "  ", "\x00", ":"}
+			s = s[:0]
+			for i, n := 0, 1+c.Intn(5); i < n; i++ {
+				switch c.Pick(3, 3, 2, 1) {
+				case 0:
+					s = append(s, keys[c.Intn(len(keys))]...)
+				case 1:
+					for j, m := 0, 1+c.Intn(4); j < m; j++ {
+						s = append(s, odd[c.Intn(len(odd))]...)
+					}
+				case 2:
+					s = append(s, c.Blob(c.Intn(12), "any")...)
+				default:
+					s = append(s, ' ')
+				}
+			}
+			if c.Prob(2, 3) {
+				s = append(s, ' ')
+				s = append(s, keys[c.Intn(len(keys))]...)
+				s = append(s, c.Blob(c.Intn(4), "digits")...)
+			}
 		}
 	case 3: // triplet-like tails
 		n := c.Intn(4)
@@ -515,6 +544,8 @@ func (h *hostile) auxParsers() {
 		case 3:
 			s = append(s, 0, 2, 0xff, 0xff, 1, 2)
 		}
+	case 6: // a stream whose length prefix is small: 0..40, then arbitrary octets
+		s = append([]byte{0, 0, 0, byte(c.Intn(41))}, c.Blob(c.Size(60, 0, 7, 8, 9, 11, 12, 13), "any")...)
 	default: // empty / tiny
 		s = c.Blob(c.Intn(3), "any")
 	}
@@ -649,5 +680,56 @@ func (h *hostile) textParsers(s []byte) {
 	for _, p := range Spec().Protos {
 		h.dispatch(p, s, "aux")
 	}
+	h.framers(s)
 	_ = fmt.Sprint
+}
+
+// framers hands the octets to the four frame extractors as a stream that ends after them. A blocking extractor has
+// to allocate what the prefix announces before it can read it, so prefixes above 1 MiB are left to C04's own
+// scenario (which bounds frame sizes); here the oracle is: no panic, no hang, no frame longer than the input.
+func (h *hostile) framers(s []byte) {
+	for _, it := range []struct {
+		name string
+		cd   codec.Codec
+	}{{"CMPPCodec", codec.NewCMPPCodec()}, {"SMPPCodec", codec.NewSMPPCodec()}} {
+		for _, blocked := range []bool{false, true} {
+			site := it.name + ".Decode"
+			if blocked {
+				site += "Blocked"
+			}
+			conn := simnet.NewSimConn(simnet.Compact, 64, nil)
+			conn.Arrive(s)
+			conn.Fail(io.EOF)
+			got := 0
+			p := h.r.Call(site, func() {
+				for i := 0; i < 8; i++ {
+					var f []byte
+					var err error
+					if nx, _ := conn.Peek(4); len(nx) == 4 && binary.BigEndian.Uint32(nx) > 1<<20 {
+						return // see above: not this scenario's question
+					}
+					if blocked {
+						f, err = it.cd.DecodeBlocked(conn)
+					} else {
+						f, err = it.cd.Decode(conn)
+					}
+					if err != nil {
+						return
+					}
+					got += len(f)
+					if len(f) == 0 {
+						return
+					}
+				}
+			})
+			if p != nil {
+				h.r.Fail("C03", "panic", p.Frame, p.Kind, "%s panicked on a stream of %d octets %s: %s", site, len(s), hexN(s, 12), p.Value)
+				return
+			}
+			if got > len(s) {
+				h.r.Fail("C03", "fabricated", site, "frame-octets", "%s returned %d octets of frames from a stream of %d", site, got, len(s))
+				return
+			}
+		}
+	}
 }
